@@ -84,6 +84,7 @@ class Env:
         self.sched = None
         self.osname = real_os.name
         self.log = []               # global step log (two-writer runs): shared order of steps
+        self.touched = set()        # base names of the paths the code under test named in a wrapped call
 
     def close(self):
         shutil.rmtree(self.dir, ignore_errors=True)
@@ -101,6 +102,7 @@ class Env:
         p = real_os.path.abspath(p)
         if real_os.path.dirname(p) != self.dir:
             return None
+        self.touched.add(real_os.path.basename(p))
         if p == self.target:
             return 'target'
         if p.startswith(self.target + '.'):
@@ -448,7 +450,8 @@ def run_single(case):
         obs = {'old': old, 'new': new, 'parts': parts, 'steps': run.steps, 'raised': raised, 'injected': run.exc,
                'final_target': env.read(env.target), 'final_listing': env.listing(), 'initial_listing': initial_listing,
                'final_fs': {n: env.read(real_os.path.join(env.dir, n)) for n in env.listing()},
-               'others': env.others, 'tmp_expected': run.tmp_expected, 'target': env.target, 'fired': run.fired}
+               'others': env.others, 'tmp_expected': run.tmp_expected, 'target': env.target, 'fired': run.fired,
+               'touched': set(env.touched)}
         return obs
     finally:
         env.close()
@@ -482,6 +485,11 @@ def oracle_single(ctx, case, obs):
     raised, fault = obs['raised'], case.get('fault')
     base = real_os.path.basename(obs['target'])
     extra = [n for n in obs['final_listing'] if n not in obs['others'] and n != base]
+    if case.get('stale'):
+        # a stale file the call never named (the code builds its temporary name differently) is not the call's leftover
+        sb = real_os.path.basename(obs['tmp_expected'])
+        if sb not in obs['touched'] and obs['final_fs'].get(sb) == STALE:
+            extra = [n for n in extra if n != sb]
     if fault is None:
         if raised is not None:
             fail('C18:spurious-raise', 'fault-free call raised %r' % raised)
@@ -879,7 +887,7 @@ REGS_QUICK = [
     [(1, 0)],
     [(2, 3), (1, 0)],
     [(1, 0), (3, 5), (2, 1)],
-    [(400, 40), (300, 10), (200, 0)],     # ~35 kB: larger than the buffered writer's buffer, so the real write is direct
+    [(120, 40), (60, 10), (40, 0)],       # ~11 kB: larger than the buffered writer's 8 kB buffer, so the real write is direct
 ]
 OLDS = [None, b'# HELP previous complete content\nprevious_metric 42.0\n', b'']
 
@@ -894,8 +902,8 @@ def cut_variants(rng, nbytes):
         out.append(([(a, bool(rng.getrandbits(1))), (b, bool(rng.getrandbits(1)))], bool(rng.getrandbits(1))))
     else:
         out.append(([(0, True)], False))
-    if nbytes > 20000:
-        out.append(([(8192, True), (8192, True), (8192, False)], False))
+    if nbytes > 9000:
+        out.append(([(4096, True), (4096, True), (500, False)], False))
     return out
 
 
@@ -943,10 +951,10 @@ def single_cases(ctx, regs, wide):
 
 def two_cases(ctx, wide):
     rng = ctx.rng
-    regs_a, regs_b = [], []          # empty registries: open, encode, write, close, rename = 5 steps per writer
+    regs_a, regs_b = [[3, 2]], [[1, 0]]   # one collector each, different lengths: open, collect, encode, write, close, rename
     old = OLDS[1].hex()
-    for combo in itertools.combinations(range(10), 5):
-        s = ['2'] * 10
+    for combo in itertools.combinations(range(12), 6):
+        s = ['2'] * 12
         for i in combo:
             s[i] = '1'
         yield {'kind': 'two', 'regs': [regs_a, regs_b], 'old': old, 'schedule': ''.join(s), 'faults': [None, None]}
@@ -997,7 +1005,7 @@ def eval_cases(ctx, cases, deadline=None):
             oracle_two(ctx, case, obs)
             ctx.case(('two', str(case['regs']), case['old'], obs['executed'], str(case.get('faults'))),
                      {'scenario': describe(case), 'executed': obs['executed'],
-                      'trace': [(s['who'], s['kind'], s['path']) for s in obs['log']]} if case['schedule'].startswith('12121') else None)
+                      'trace': [(s['who'], s['kind'], s['path']) for s in obs['log']]} if case['schedule'].startswith('1212112') else None)
             ctx.count('two-writers' + ('' if not any(case.get('faults') or []) else ':one-faulted'))
             reqs.append(request_two(case, obs))
         pend.append((case, obs))
@@ -1019,12 +1027,12 @@ def check_skeleton(ctx):
 
 
 def run(ctx):
-    ctx.rule = ('single calls: registries of 0,1,2,3 small collectors and one ~35 kB registry × previous target absent / present / present-and-empty × '
+    ctx.rule = ('single calls: registries of 0,1,2,3 small collectors and one ~11 kB registry × previous target absent / present / present-and-empty × '
                 'f.write passed through to the real buffered writer or split into 1–4 pieces with every flush-at-write / flush-at-close choice × '
                 '(no fault | one fault at EVERY step: open, each collector, each piece, close, rename; Exception classes rotated, all five on a subset; '
                 'partial work 0/1/7 bytes; natural UnicodeEncodeError from a lone surrogate; BaseException classes for the documented limit F16; '
-                "os.name='nt' branch on a subset); every step is a cut point with a reader snapshot. Two writers: ALL C(10,5)=252 interleavings of two "
-                '5-step calls, plus random schedules of longer calls with one writer faulted. A case is non-trivial when it has a fault, a previous '
+                "os.name='nt' branch on a subset); every step is a cut point with a reader snapshot. Two writers: ALL C(12,6)=924 interleavings of two "
+                '6-step calls, plus random schedules of longer calls with one writer faulted. A case is non-trivial when it has a fault, a previous '
                 'target or a split write; distinct by (registry, previous target, split, fault position/class/part) resp. (registries, executed order).')
     wide = bool(ctx.broken) or ctx.tier == 'thorough'
     regs = list(REGS_QUICK)
@@ -1034,11 +1042,9 @@ def run(ctx):
         regs.append([(2000, 20)])
     check_skeleton(ctx)
     quick = ctx.tier != 'thorough'
-    t = time.time()
-    # the 252 interleavings first when something broke (the tmp-name mutation shows only there), otherwise second
-    eval_cases(ctx, two_cases(ctx, wide), t + 15 if quick else None)
-    eval_cases(ctx, single_cases(ctx, regs, wide and not quick), time.time() + 25 if quick else None)
-    ctx.extra['exhaustive_parts'] = ('all fault positions of every listed single-call scenario; all 252 interleavings of two 5-step calls '
+    eval_cases(ctx, single_cases(ctx, regs, wide and not quick), time.time() + 15 if quick else None)
+    eval_cases(ctx, two_cases(ctx, wide), time.time() + 10 if quick else None)
+    ctx.extra['exhaustive_parts'] = ('all fault positions of every listed single-call scenario; all 924 interleavings of two 6-step calls '
                                      '(the space of registries and contents itself is unbounded and is covered by the theorems, not enumerated)')
     kill_trials(ctx, 150 if ctx.tier == 'thorough' else 3)
     ctx.extra.setdefault('documented_limits', {})
